@@ -1768,6 +1768,13 @@ def _convert_newlines_to_spaces(
         if i < len(elem_buffer) and isinstance(elem_buffer[i], ReflowPoint):
             elem = elem_buffer[i]
 
+            # An inline comment runs to the end of its line, so the line
+            # break after it has to stay.
+            if i > 0 and any(
+                seg.is_type("inline_comment") for seg in elem_buffer[i - 1].segments
+            ):
+                continue
+
             if elem.num_newlines() > 0:
                 reflow_logger.debug(
                     "    Converting newline to space at position %s for "
